@@ -949,6 +949,19 @@ class _FunctionInformationCollector(ast.RopeNodeVisitor):
         with self._handle_loop_context(node):
             self._handle_conditional_node(node)
 
+    def _Try(self, node):
+        # any part of a try statement may be skipped
+        self._handle_conditional_node(node)
+
+    def _TryStar(self, node):
+        self._handle_conditional_node(node)
+
+    def _Match(self, node):
+        self._handle_conditional_node(node)
+
+    def _AsyncFor(self, node):
+        self._For(node)
+
     def _For(self, node):
         with self._handle_loop_context(node), self._handle_conditional_context(node):
             # iter has to be checked before the target variables
